@@ -4,6 +4,7 @@ TARGETS = []
 for c in ("DDM", "EDDM", "STEPD", "PageHinkley", "CUSUM"):
     TARGETS += [("fn", SCALAR[c] + ".__init__"), ("fn", SCALAR[c] + ".update"), ("fn", SCALAR[c] + ".reset")]
 TARGETS += [("fn", "menelaus.change_detection.adwin:ADWIN.update"), ("fn", "menelaus.data_drift.kdq_tree:KdqTreeStreaming.update"),
+            ("fn", "menelaus.data_drift.kdq_tree:KdqTreeStreaming.reset"), ("fn", "menelaus.data_drift.pca_cd:PCACD.update"),
             ("fn", "menelaus.data_drift.kdq_tree:KdqTreeBatch.update"), ("fn", "menelaus.data_drift.nndvi:NNDVI.update"),
             ("fn", "menelaus.concept_drift.md3:MD3.update"), ("fn", "menelaus.concept_drift.md3:MD3.give_oracle_label"),
             ("fn", "menelaus.concept_drift.lfr:LinearFourRates.update@tnr")]
